@@ -231,14 +231,17 @@ func genGarbageCases(r *Rng, n int) {
 		}
 		kind := "match"
 		var impl Outcome
+		var cl []pokeViolation
 		if isUpdate {
 			kind = "update"
 			impl = runUpdate(g.text, item, ctx.Names, ctx.Values)
+			cl = clientsUpdate(g.text, item, ctx.Names, ctx.Values, impl, false)
 		} else {
 			impl = runMatch(g.text, item, ctx.Names, ctx.Values)
+			cl = clientsMatch(g.text, item, ctx.Names, ctx.Values, impl, false)
 		}
 		emit(Case{"kind": kind, "expr": hx([]byte(g.text)), "text": g.text, "item": canonKeysOnly(item), "names": namesList(ctx.Names),
-			"values": valuesItem(ctx.Values), "garbage": g.certain, "garbageClass": g.class, "impl": impl})
+			"values": valuesItem(ctx.Values), "garbage": g.certain, "garbageClass": g.class, "impl": impl, "clients": cl})
 	}
 }
 
